@@ -18,7 +18,7 @@ ap = sh(f'git -C {wt} apply {src}/patch.diff')
 if ap.returncode:
     print('PATCH DOES NOT APPLY', ap.stderr); sys.exit(2)
 mutated = sh(env).returncode
-base = sh(f'python3 /tmp/mut-tools/baseline_check.py {wt}')
+base = sh(f'python3 /verif/tools/baseline_check.py {wt}')
 sh(f'git -C {wt} checkout -q -- .')
 ok = clean == 0 and mutated != 0 and base.returncode == 0
 print(prop, k, 'demo clean exit', clean, 'mutated exit', mutated, 'baseline:', base.stdout.strip().splitlines()[0] if base.stdout else base.stderr[-200:], 'CONFIRMED' if ok else 'NOT CONFIRMED')
